@@ -101,8 +101,12 @@ def run_case(case):
     evals = [0]
     rs = cm.rshells(shells)
     R = Ref(rs, pts, T)
-    kw = {} if T is None else {"transform": T.copy()}
+    rkind = cm.REPS[(len(case["dm"]) + len(pts)) % len(cm.REPS)]  # in-memory representation of the array arguments
+    kw = {} if T is None else {"transform": cm.rep(T, rkind)}
     N = len(pts)
+    dm_in = dm
+    dm = cm.rep(dm_in, rkind)
+    pts = cm.rep(pts, rkind)
 
     def chk(out, ref, sc, what, qty, **k):
         evals[0] += 1
@@ -115,13 +119,13 @@ def run_case(case):
     tpos, tpos_sc = R.ev(da.posdef_ked(), dm)
     big = 1e30  # threshold that never raises
     # ---- density (threshold semantics handled below; here: compare where no clipping applies)
-    out = cm.call(D.evaluate_density, dm.copy(), B(), pts.copy(), threshold=big, **kw)
+    out = cm.call(D.evaluate_density, dm, B(), pts, threshold=big, **kw)
     chk(out, np.clip(rho, 0, None), rho_sc, "evaluate_density(threshold=inf)", "density")
     # ---- arbitrary-order derivatives
     for o in case["orders"]:
         o = tuple(int(x) for x in o)
         ref, sc = R.ev(da.deriv_density(o), dm)
-        out = cm.call(D.evaluate_deriv_density, np.array(o, dtype=int), dm.copy(), B(), pts.copy(), deriv_type=dt, **kw)
+        out = cm.call(D.evaluate_deriv_density, np.array(o, dtype=int), dm, B(), pts, deriv_type=dt, **kw)
         chk(out, ref, sc, "evaluate_deriv_density(orders=%s, %s)" % (o, dt), "deriv_density", orders=list(o))
     # ---- the building block itself: derivative of the reduced density matrix D(p, q) on the diagonal, and the density
     # from already evaluated orbitals
@@ -130,24 +134,24 @@ def run_case(case):
         o1 = tuple(int(x) for x in rngq.integers(0, 3, size=3))
         o2 = tuple(int(x) for x in rngq.integers(0, 3, size=3))
         ref, sc = R.ev(da.term(o1, o2), dm)
-        out = cm.call(D.evaluate_deriv_reduced_density_matrix, np.array(o1, dtype=int), np.array(o2, dtype=int), dm.copy(), B(), pts.copy(), deriv_type=dt, **kw)
+        out = cm.call(D.evaluate_deriv_reduced_density_matrix, np.array(o1, dtype=int), np.array(o2, dtype=int), dm, B(), pts, deriv_type=dt, **kw)
         chk(out, ref, sc, "evaluate_deriv_reduced_density_matrix(%s, %s, %s)" % (o1, o2, dt), "rdm_deriv", orders=[list(o1), list(o2)])
     orb = R.val((0, 0, 0))
-    out = cm.call(D.evaluate_density_using_evaluated_orbs, dm.copy(), np.array(orb, dtype=float))
+    out = cm.call(D.evaluate_density_using_evaluated_orbs, dm, np.array(orb, dtype=float))
     chk(out, rho, rho_sc, "evaluate_density_using_evaluated_orbs", "density_from_orbs")
     # ---- gradient, laplacian, hessian
     gref = [R.ev(da.deriv_density(da.e(k)), dm) for k in range(3)]
-    g = cm.call(D.evaluate_density_gradient, dm.copy(), B(), pts.copy(), deriv_type=dt, **kw)
+    g = cm.call(D.evaluate_density_gradient, dm, B(), pts, deriv_type=dt, **kw)
     chk(g, np.stack([x[0] for x in gref], axis=1), np.stack([x[1] for x in gref], axis=1), "evaluate_density_gradient", "gradient")
     lref, lsc = R.ev(da.laplacian(), dm)
-    lap = cm.call(D.evaluate_density_laplacian, dm.copy(), B(), pts.copy(), deriv_type=dt, **kw)
+    lap = cm.call(D.evaluate_density_laplacian, dm, B(), pts, deriv_type=dt, **kw)
     chk(lap, lref, lsc, "evaluate_density_laplacian", "laplacian")
     href = np.zeros((N, 3, 3))
     hsc = np.zeros((N, 3, 3))
     for i in range(3):
         for j in range(3):
             href[:, i, j], hsc[:, i, j] = R.ev(da.deriv_density(da.plus(da.e(i), da.e(j))), dm)
-    H = cm.call(D.evaluate_density_hessian, dm.copy(), B(), pts.copy(), deriv_type=dt, **kw)
+    H = cm.call(D.evaluate_density_hessian, dm, B(), pts, deriv_type=dt, **kw)
     chk(H, href, hsc, "evaluate_density_hessian", "hessian")
     # invariants on observed arrays
     if isinstance(H, np.ndarray) and H.shape == (N, 3, 3):
@@ -164,7 +168,7 @@ def run_case(case):
                 viols.append(cm.viol("trace of the density Hessian differs from the observed Laplacian (%.3e of scale)" % e, "hessian_trace", e, 3 * TOL))
     if isinstance(g, np.ndarray) and g.shape == (N, 3):
         for k in range(3):
-            d1 = cm.call(D.evaluate_deriv_density, np.array(da.e(k), dtype=int), dm.copy(), B(), pts.copy(), deriv_type=dt, **kw)
+            d1 = cm.call(D.evaluate_deriv_density, np.array(da.e(k), dtype=int), dm, B(), pts, deriv_type=dt, **kw)
             if isinstance(d1, np.ndarray) and d1.shape == (N,):
                 e = cm.maxerr(g[:, k], d1, gref[k][1] + 1e-280)[0]
                 errs["gradient_vs_deriv"] = max(errs.get("gradient_vs_deriv", 0.0), e)
@@ -172,11 +176,11 @@ def run_case(case):
                 if not e <= TOL:
                     viols.append(cm.viol("gradient component %d differs from the observed first derivative (%.3e)" % (k, e), "gradient_vs_deriv", e, TOL))
     # ---- kinetic-energy densities
-    out = cm.call(D.evaluate_posdef_kinetic_energy_density, dm.copy(), B(), pts.copy(), deriv_type=dt, threshold=big, **kw)
+    out = cm.call(D.evaluate_posdef_kinetic_energy_density, dm, B(), pts, deriv_type=dt, threshold=big, **kw)
     chk(out, np.clip(tpos, 0, None), tpos_sc, "evaluate_posdef_kinetic_energy_density(threshold=inf)", "posdef_ked")
     gk_ref = tpos + alpha * lref
     gk_sc = tpos_sc + abs(alpha) * lsc
-    out = cm.call(D.evaluate_general_kinetic_energy_density, dm.copy(), B(), pts.copy(), alpha, deriv_type=dt, **kw)
+    out = cm.call(D.evaluate_general_kinetic_energy_density, dm, B(), pts, alpha, deriv_type=dt, **kw)
     evals[0] += 1
     tmin = float(tpos.min())
     noise = float(TOL * tpos_sc.max())
@@ -205,7 +209,7 @@ def run_case(case):
             a = abs(vmin)
             for thr, expect in ((a * (1 + 1e-6), "clip"), (a * (1 - 1e-6), "raise"), (a / 2 * (1 + 1e-6), "raise"), (a / 2 * (1 - 1e-6), "raise"),
                                 (2 * a, "clip"), (0.0, "raise"), (a * 1e3, "clip")):
-                out = cm.call(fn, dm.copy(), B(), pts.copy(), threshold=thr, **extra, **kw)
+                out = cm.call(fn, dm, B(), pts, threshold=thr, **extra, **kw)
                 evals[0] += 1
                 if expect == "raise":
                     if not isinstance(out, cm.Raised):
@@ -225,7 +229,7 @@ def run_case(case):
             errs[name + "_threshold_cases"] = 0.0
         elif vmin >= 0 or "dm:psd" in case["classes"] or "dm:psd-lowrank" in case["classes"] or "dm:diag" in case["classes"]:
             if any(c in case["classes"] for c in ("dm:psd", "dm:psd-lowrank", "dm:diag", "dm:zero")):
-                out = cm.call(fn, dm.copy(), B(), pts.copy(), **extra, **kw)
+                out = cm.call(fn, dm, B(), pts, **extra, **kw)
                 evals[0] += 1
                 if isinstance(out, np.ndarray) and out.shape == v.shape:
                     # at the default threshold nothing but negative values may be altered (small positive values in the
